@@ -85,7 +85,7 @@ PROPS["C05"] = {
     "mc_quick": [mc("MCHeadPrefix", "MCHeadPrefix.cfg"), mc("MCHeadPrefix", "MCHeadPrefix_clean.cfg"),
                  mc("MCHeadPrefix", "MCHeadPrefix_kf1.cfg", expect_violation="Refines"),
                  mc("MCHeadPrefix", "MCHeadPrefix_f4.cfg", expect_violation="Refines")],
-    "require_classes": ["offer:3xx-after-location", "offer:shorter-than-version", "offer:h-1", "offer:over-limit", "offer:sequence", "offer:after-split-interim", "offer:giant-head"],
+    "require_classes": ["offer:3xx-after-location", "offer:shorter-than-version", "offer:h-1", "offer:over-limit", "offer:sequence", "offer:after-split-interim", "offer:giant-head", "offer:directed"],
     "rule": "one case = one generated well-formed response head (status, version, reason, 0..130 fields with OWS / empty / obs-text values, Location position) "
             "followed by arbitrary bytes, offered at every prefix length 0..|H|+3 to a fresh Flow<RecvResponse> or Call<RecvResponse>; "
             "distinct = distinct (status class, field count, reason class, Location position class)",
